@@ -1133,8 +1133,8 @@ static cfg_value_t *cfg_setopt_value(cfg_t *cfg, cfg_opt_t *opt, const char *val
 				return NULL;
 			}
 
-			/* defaults are for a new section, not for one that is re-opened */
-			if (!is_set(CFGF_DEFINIT, opt->flags) && cfg_init_defaults(sec) != CFG_SUCCESS) {
+			/* every new section gets its defaults (one that is re-opened is not new) */
+			if (cfg_init_defaults(sec) != CFG_SUCCESS) {
 				cfg_free_ctx(sec);
 				return NULL;
 			}
